@@ -141,6 +141,152 @@ pub fn check_protocache(c: &ProtoCacheCase, known: &Arc<Known>) -> Verdict {
     j.finish(nontrivial(&key))
 }
 
+// ------------------------------------------------------------------ ProtocolCache: two keys, two files
+
+/// Two different well-formed protocol cache keys ("api/ribbit/<endpoint>" with an endpoint from
+/// validate_endpoint's alphabet, "cdn/<path>/<type>/<aa>/<bb>/<hex>") that differ in one place —
+/// anywhere in a component, also far behind its 200th byte — by one character, by one appended
+/// character or by letter case.
+#[derive(Debug, Clone, Serialize, Deserialize)]
+pub struct ProtoPairCase {
+    pub a: String,
+    pub b: String,
+    pub seed: u64,
+}
+
+pub fn protopair_strategy() -> BoxedStrategy<ProtoPairCase> {
+    use proptest::collection::vec;
+    use proptest::sample::select;
+    let alpha: Vec<u8> = b"abcdefghijklmnopqrstuvwxyzABCDEFXYZ0123456789_-".to_vec();
+    let comp_len = prop_oneof![4 => 1usize..=40, 2 => 41usize..=199, 4 => 200usize..=250];
+    let comp = comp_len.prop_flat_map(move |n| vec(select(alpha.clone()), n).prop_map(|v| String::from_utf8(v).unwrap()));
+    let prefix = prop_oneof![
+        4 => Just("api/ribbit/".to_string()),
+        2 => Just("api/ribbit/v1/products/".to_string()),
+        2 => Just("cdn/tpr/wow/data/ab/cd/".to_string()),
+        1 => Just("cdn/".to_string()),
+    ];
+    let suffix = prop_oneof![5 => Just(String::new()), 2 => Just("/versions".to_string()), 1 => Just(".index".to_string()), 1 => Just("/config/ab/cd/0123456789abcdef".to_string())];
+    (prefix, comp, suffix, any::<u16>(), 0u8..8, any::<u8>(), any::<u64>())
+        .prop_map(|(prefix, comp, suffix, at, how, ch, seed)| {
+            let bytes = comp.as_bytes();
+            let n = bytes.len();
+            // position of the difference: anywhere, the last character, or behind byte 200
+            let pos = match how % 4 {
+                0 => pick_idx_local(at, n),
+                1 => n - 1,
+                2 if n > 200 => 200 + pick_idx_local(at, n - 200),
+                _ => pick_idx_local(at, n),
+            };
+            let other = {
+                let pool = b"abcdefghijklmnopqrstuvwxyz0123456789_-";
+                let mut c = pool[ch as usize % pool.len()];
+                if c == bytes[pos] {
+                    c = if c == b'q' { b'r' } else { b'q' };
+                }
+                c
+            };
+            let mut b = bytes.to_vec();
+            match how {
+                // one appended character
+                4 => b.push(other),
+                // letter case of one character (if it is a letter)
+                5 if bytes[pos].is_ascii_alphabetic() => b[pos] ^= 0x20,
+                // one character dropped at the end (n >= 2)
+                6 if n >= 2 => {
+                    b.pop();
+                }
+                _ => b[pos] = other,
+            }
+            let b = String::from_utf8(b).unwrap();
+            ProtoPairCase { a: format!("{prefix}{comp}{suffix}"), b: format!("{prefix}{b}{suffix}"), seed }
+        })
+        .boxed()
+}
+
+fn pick_idx_local(x: u16, n: usize) -> usize {
+    vh_engine::pick_idx(x, n.max(1))
+}
+
+pub fn check_protopair(c: &ProtoPairCase, known: &Arc<Known>) -> Verdict {
+    if c.a == c.b {
+        return Verdict::pass().class("identical-pair");
+    }
+    let sb = match Sandbox::new() {
+        Ok(s) => s,
+        Err(e) => {
+            infra(format!("sandbox: {e}"));
+            return Verdict::pass();
+        }
+    };
+    let mut j = J::new(known);
+    if sb.resolve(&c.a).map(|t| sb.is_under_root(&t)) != Some(true) || sb.resolve(&c.b).map(|t| sb.is_under_root(&t)) != Some(true) {
+        j.class("skipped_unsafe");
+        return j.finish(false);
+    }
+    let longest = c.a.split('/').map(str::len).max().unwrap_or(0);
+    let differ_at = c.a.bytes().zip(c.b.bytes()).position(|(x, y)| x != y).unwrap_or(c.a.len().min(c.b.len()));
+    let comp_start = c.a[..differ_at.min(c.a.len())].rfind('/').map_or(0, |p| p + 1);
+    j.class_if(longest > 200, "component>200-bytes");
+    j.class_if(differ_at - comp_start >= 200, "keys-differ-behind-byte-200-of-a-component");
+    j.class_if(c.a.len() != c.b.len(), "one-key-is-longer");
+    j.class_if(c.a.eq_ignore_ascii_case(&c.b), "keys-differ-by-letter-case");
+    let va = format!("A-{:016x}", c.seed).into_bytes();
+    let vb = format!("B-{:016x}", c.seed).into_bytes();
+    let key = "C20:protocol-cache:two-keys-share-a-file".to_string();
+    let detail = format!("a = {:?} ({} bytes), b differs from byte {differ_at}: {:?}", c.a, c.a.len(), &c.b[differ_at.min(c.b.len())..]);
+    let judge = |ga: Option<Vec<u8>>, gb: Option<Vec<u8>>, whom: &str, j: &mut J| -> bool {
+        // a store may fail (name too long for the file system): then the key reads as absent
+        let bad = ga.as_ref().is_some_and(|x| *x != va) || gb.as_ref().is_some_and(|x| *x != vb);
+        bad && j.report(
+            key.clone(),
+            format!(
+                "{whom}: after store(a, A), store(b, B): get(a) = {:?}, get(b) = {:?}; {detail}",
+                ga.as_ref().map(|x| String::from_utf8_lossy(x).into_owned()),
+                gb.as_ref().map(|x| String::from_utf8_lossy(x).into_owned())
+            ),
+        )
+    };
+    let both_stored;
+    {
+        let cache = match ProtocolCache::new(&cache_config(&sb)) {
+            Ok(x) => x,
+            Err(e) => {
+                infra(format!("ProtocolCache::new: {e}"));
+                return Verdict::pass();
+            }
+        };
+        let ra = catch_panic(|| cache.store_bytes(&c.a, &va));
+        let rb = catch_panic(|| cache.store_bytes(&c.b, &vb));
+        if let (Err(p), _) | (_, Err(p)) = (&ra, &rb) {
+            j.report("C20:protocol-cache:panic-in-store".into(), format!("store panicked at {}:{}: {}; {detail}", p.file, p.line, p.msg));
+            return j.finish(true);
+        }
+        both_stored = matches!((&ra, &rb), (Ok(Ok(())), Ok(Ok(()))));
+        j.class_if(both_stored, "both-stored");
+        let ga = catch_panic(|| cache.get(&c.a)).ok().and_then(Result::ok).flatten();
+        let gb = catch_panic(|| cache.get(&c.b)).ok().and_then(Result::ok).flatten();
+        if both_stored && (ga.is_none() || gb.is_none()) {
+            // both stores reported success a moment ago: one value has taken the other's place
+            if j.report(key.clone(), format!("same instance: both stores succeeded, get(a) present = {}, get(b) present = {}; {detail}", ga.is_some(), gb.is_some())) {
+                return j.finish(true);
+            }
+        }
+        if judge(ga, gb, "same instance", &mut j) {
+            return j.finish(true);
+        }
+    }
+    if let Ok(cache) = ProtocolCache::new(&cache_config(&sb)) {
+        let ga = catch_panic(|| cache.get(&c.a)).ok().and_then(Result::ok).flatten();
+        let gb = catch_panic(|| cache.get(&c.b)).ok().and_then(Result::ok).flatten();
+        if judge(ga, gb, "fresh instance over the same directory", &mut j) {
+            return j.finish(true);
+        }
+    }
+    end_of_case(&sb);
+    j.finish(both_stored)
+}
+
 // ------------------------------------------------------------------ RibbitTactClient::query
 
 #[derive(Debug, Clone, Serialize, Deserialize)]
